@@ -351,13 +351,18 @@ def nonpin_bases(rng, with_length7):
     out = []
     nonpin6 = [t for t in itertools.permutations(range(6)) if t not in P.pin_perms(6)]
     copies = orientation_classes()
-    for target in rng.sample(copies, 3):
+    nonpin7 = [t for t in itertools.permutations(range(7)) if t not in P.pin_perms(7)] if with_length7 else []
+    viable = []
+    for target in copies:
         sep = separating_basis(target)
-        inside = [q for q in nonpin6 if C.contains_bt(target[1], q)]
-        if sep and inside:
-            out.append([list(b) for b in sep] + [list(rng.choice(inside))])
+        if not sep:
+            continue
+        inside = [q for q in nonpin6 if C.contains_bt(target[1], q)] or [q for q in nonpin7[::7] if C.contains_bt(target[1], q)]
+        if inside:
+            viable.append((sep, inside))
+    for sep, inside in rng.sample(viable, min(3, len(viable))):
+        out.append([list(b) for b in sep] + [list(rng.choice(inside))])
     if with_length7:
-        nonpin7 = [t for t in itertools.permutations(range(7)) if t not in P.pin_perms(7)]
         rng.shuffle(nonpin6)
         rng.shuffle(nonpin7)
         basis = []
